@@ -1,5 +1,6 @@
 mod drive;
 mod exec;
+mod mergevec;
 mod model;
 mod observers;
 mod product;
@@ -36,6 +37,7 @@ fn main() {
         "product" => cmd_product(&m),
         "drive" => cmd_drive(&m),
         "record" => cmd_record(&m),
+        "merge" => cmd_merge(&m),
         _ => {
             eprintln!("usage: sodg-verif-harness <product|...> [--key value ...]");
             2
@@ -142,5 +144,34 @@ fn cmd_record(m: &HashMap<String, Vec<String>>) -> i32 {
     }
     use std::io::Write;
     writeln!(out, "{}", json!({"op":"end","t":0,"h":0})).unwrap();
+    0
+}
+
+fn cmd_merge(m: &HashMap<String, Vec<String>>) -> i32 {
+    let paths: Vec<PathBuf> = m.get("vectors").expect("--vectors").iter().map(PathBuf::from).collect();
+    let tokens_json: Value = serde_json::from_str(one(m, "tokens").expect("--tokens")).expect("tokens json");
+    let tk = model::Tokens::from_json(&tokens_json);
+    let o = product::Opts {
+        n: one(m, "n").unwrap_or("2").parse().unwrap(),
+        cap: one(m, "cap").unwrap_or("6").parse().unwrap(),
+        budget: 0,
+        scratch: PathBuf::from(one(m, "scratch").unwrap_or(".")),
+        observers: vec![],
+        witness_out: one(m, "witness-out").map(PathBuf::from),
+        max_witness_per_sig: one(m, "per-sig").unwrap_or("3").parse().unwrap(),
+        max_witnesses: one(m, "max-witnesses").unwrap_or("40").parse().unwrap(),
+        tokens_json: tokens_json.clone(),
+    };
+    let stride: usize = one(m, "stride").unwrap_or("1").parse().unwrap();
+    let offset: usize = one(m, "offset").unwrap_or("0").parse().unwrap();
+    let t0 = std::time::Instant::now();
+    let mut j = mergevec::run(&paths, &tk, &o, stride, offset);
+    j["wall_s"] = json!(t0.elapsed().as_secs_f64());
+    let out = serde_json::to_string(&j).unwrap();
+    if let Some(p) = one(m, "out") {
+        std::fs::write(p, &out).unwrap();
+    } else {
+        println!("{out}");
+    }
     0
 }
